@@ -37,11 +37,14 @@ const (
 	w9Idle     = 1 // loader waits for the scheduler's command
 	w9InAlloc  = 2 // loader is inside updateInflightApprox (may be waiting for memory)
 	w9Returned = 3
+	w9Held     = 4 // loader has taken a block from the storage (its context was alive) and has not reported it yet
 
 	w9CmdReturn = 0 // return successfully (everything delivered)
 	w9CmdBlock  = 1 // deliver half of the missing slots
 	w9CmdFail   = 2
 	w9CmdRest   = 3 // deliver all missing slots, do not return yet
+	w9CmdHold   = 8 // flag on block/rest: stop between the context check and the report of the bytes
+	w9CmdReport = 4 // to a held loader: report now
 )
 
 const (
@@ -55,6 +58,8 @@ var w9RunCount int // executions in this process (GC bookkeeping only)
 
 type w9Load struct {
 	id        int // == id of the Get whose loadChunks goroutine called the loader
+	reqID     uint32 // in-flight request id the cache gave this load (written before the first idle state)
+	heldUpto  int    // while held: the delivery that waits to be reported
 	q         int
 	step      int64
 	from, to  int64 // seconds
@@ -148,6 +153,8 @@ type w9World struct {
 	bbHits    int  // buckets the running pass has processed (written by the invalidator goroutine)
 	bbFocus   int  // 0: three chunks in each of two regions; 1: one chunk of the old region; 2: two chunks in each region
 	bbAftermath int // scheduler steps left in which requests ask for what the pass that was parked has invalidated
+	holdMode  bool // loaders may stop between taking a block (context alive) and reporting its bytes; the run starts under a small hard limit
+	freshLim  cache2Limits
 	overlap   bool // exploration aid W9_OVERLAP_INVALIDATIONS: do not serialise invalidation passes
 	bbTk      int  // ticket watched by bbWatch
 	bbIter    [2]*cache2Bucket
@@ -312,6 +319,7 @@ func (w *w9World) loader(ctx context.Context, h *requestHandler, q *queryBuilder
 	var reqID uint32
 	if cc != nil {
 		reqID = cc.NewInflightReq(cancel)
+		ld.reqID = reqID
 		cc.updateInflightApprox(reqID, 0)
 		defer cc.afterInflightLoadFinished(reqID)
 	}
@@ -327,9 +335,19 @@ func (w *w9World) loader(ctx context.Context, h *requestHandler, q *queryBuilder
 				// the trim goroutine has settled on them before the request is taken off the books
 				return n, nil
 			}
+			hold := cmd&w9CmdHold != 0
+			cmd &^= w9CmdHold
 			upto := len(ret)
 			if cmd == w9CmdBlock {
 				upto = w9BlockUpto(ld)
+			}
+			if hold {
+				// loadPoints' OnResult looks at ctx.Done() and then reports the block's bytes to the cache
+				// (updateInflightApprox takes cache.mu): the loader stands between the two until the
+				// scheduler lets it go on; a cancellation that arrives meanwhile is noticed afterwards
+				ld.heldUpto = upto
+				ld.state = w9Held
+				<-ld.cmd
 			}
 			ld.state = w9InAlloc
 			if cc != nil {
@@ -885,6 +903,9 @@ func (w *w9World) launchInvalidate() {
 
 func (w *w9World) setLimits(l cache2Limits, why string) {
 	w.lim = l
+	if l.maxSize != 0 {
+		w.freshLim = cache2Limits{maxSize: l.maxSize, maxSizeSoft: l.maxSizeSoft}
+	}
 	w.r.Event("limits", "%s maxSize=%d rows maxSizeSoft=%d rows maxAge=%v", why, l.maxSize/w.rowB, l.maxSizeSoft/w.rowB, l.maxAge)
 	w.ch.setLimits(l)
 }
@@ -967,9 +988,67 @@ func (w *w9World) idleLoads() []*w9Load {
 	return out
 }
 
+func (w *w9World) drawHold() int {
+	if w.holdMode && w.c.Intn(2, "hold") == 1 {
+		return w9CmdHold
+	}
+	return 0
+}
+
+func (w *w9World) heldLoads() []*w9Load {
+	var out []*w9Load
+	for _, id := range w.loadIDs {
+		if ld := w.loads[id]; !ld.finished && ld.state == w9Held {
+			out = append(out, ld)
+		}
+	}
+	return out
+}
+
+// registered: the cache still has the load's in-flight request on its books (it takes a request off
+// when the loader finishes, or when it cancels the largest one because the in-flight estimate alone,
+// with the cache empty, is above the hard limit).
+func (w *w9World) registered(ld *w9Load) bool {
+	w.ch.mu.Lock()
+	defer w.ch.mu.Unlock()
+	_, ok := w.ch.inflightReqM[ld.reqID]
+	return ok
+}
+
+// mayReport: a held loader reports only if the estimate, with these bytes counted, stays out of the
+// state the bubble cannot leave (see mayDeliver). For a request that is on the books that is
+// mayDeliver; the report of a request the cache has taken off its books is to be ignored by the
+// cache, and is let through only if the estimate would stay within the hard limit even if it were
+// counted, so that no tree, whatever it does with such a report, can put the trim goroutine into its
+// non-blocking loop.
+func (w *w9World) mayReport(ld *w9Load) bool {
+	delta := w.deltaBytes(ld, ld.heldUpto)
+	if w.registered(ld) {
+		return w.mayDeliver(delta)
+	}
+	_, inflight, _, lim := w.memState()
+	return lim.maxSize == 0 || inflight+delta <= int64(lim.maxSize)
+}
+
+func (w *w9World) report(ld *w9Load) {
+	r := w.r
+	r.Sched("report", "storage")
+	reg := w.registered(ld)
+	r.Event("load", "%d report (request on the cache's books: %v)", ld.id, reg)
+	r.Probe("held_block_reported")
+	if !reg {
+		r.Probe("held_block_reported_after_cache_cancelled_the_request")
+	}
+	ld.cmd <- w9CmdReport
+}
+
 func (w *w9World) command(ld *w9Load, cmd int) {
 	r := w.r
-	name := []string{"return", "block", "fail", "rest"}[cmd]
+	name := []string{"return", "block", "fail", "rest"}[cmd&^w9CmdHold]
+	if cmd&w9CmdHold != 0 {
+		name += " (loader holds the report)"
+		r.Probe("block_taken_report_held")
+	}
 	r.Sched(name, "storage")
 	r.Event("load", "%d %s", ld.id, name)
 	if cmd == w9CmdFail {
@@ -1074,7 +1153,8 @@ func w9Run(t *testing.T, r *verifsim.Run) {
 	useReset := c.Intn(2, "use_reset") == 1
 	useAged := c.Intn(2, "use_aged") == 1
 	hooks := c.Intn(8, "hooks")
-	trimHooks := c.Intn(4, "trim_hooks")
+	trimHooks := c.Intn(8, "trim_hooks")
+	w.holdMode = trimHooks&4 != 0
 	armed := map[string]bool{"cache2.load.after_notify": hooks&1 != 0, w9PtBefore: hooks&2 != 0,
 		"cache2.trim.before_reduce": trimHooks&1 != 0, "cache2.trim.before_aged": trimHooks&2 != 0}
 	w.beforeArmed = armed[w9PtBefore]
@@ -1156,6 +1236,17 @@ func w9Run(t *testing.T, r *verifsim.Run) {
 	if bbWarm != 0 {
 		w.warmUp([]time.Duration{0, 0, time.Millisecond, time.Second}[bbWarm])
 	}
+	if w.holdMode {
+		// the run begins under a small hard limit (rows; soft limit 80%): with the cache empty the
+		// in-flight estimates of a few concurrent loads cross it and the cache cancels the largest
+		rows := []int{0, 8, 12, 16, 24, 40}[c.Intn(6, "hold_limits")]
+		r.Config["hold_limits"] = rows
+		if rows != 0 {
+			w.stepWait(time.Microsecond)
+			r.Sched("limits", "admin")
+			w.setLimits(cache2Limits{maxSize: rows * w.rowB}, "initial")
+		}
+	}
 	for op := 0; op < ops && !r.Failed(); op++ {
 		w.stepWait(time.Microsecond)
 		if r.Failed() {
@@ -1181,6 +1272,11 @@ func w9Run(t *testing.T, r *verifsim.Run) {
 				}
 			} else if w.mayDeliver(w.deltaBytes(ld, len(ld.ret))) {
 				acts = append(acts, act{kind: "complete", ld: ld})
+			}
+		}
+		for _, ld := range w.heldLoads() {
+			if w.mayReport(ld) {
+				acts = append(acts, act{kind: "report", ld: ld})
 			}
 		}
 		for _, tk := range tickets {
@@ -1237,10 +1333,12 @@ func w9Run(t *testing.T, r *verifsim.Run) {
 				if w.willWait(w.deltaBytes(a.ld, len(a.ld.ret))) {
 					r.Probe("delivery_predicted_to_wait_for_memory")
 				}
-				w.command(a.ld, w9CmdRest)
+				w.command(a.ld, w9CmdRest|w.drawHold())
 			}
 		case "block":
-			w.command(a.ld, w9CmdBlock)
+			w.command(a.ld, w9CmdBlock|w.drawHold())
+		case "report":
+			w.report(a.ld)
 		case "fail":
 			w.command(a.ld, w9CmdFail)
 		case "release":
@@ -1298,6 +1396,66 @@ func w9Run(t *testing.T, r *verifsim.Run) {
 	w.windDown(!r.Failed())
 }
 
+// freshGet: everything has finished; the cache is emptied (reset), the accounting, the in-flight
+// estimate included, must be zero, and under the limits the run last had a new request must return.
+func (w *w9World) freshGet() {
+	r := w.r
+	w.ch.reset()
+	verifsim.Wait()
+	size, inflight, nreq, _ := w.memState()
+	if ok, empty, what := w.accounting(); !ok || !empty || size != 0 || inflight != 0 || nreq != 0 {
+		r.Fail("C23", "accounting_after_reset", "emptied", "all requests have returned and reset() has emptied the cache: size %d bytes, in-flight estimate %d bytes in %d requests; %s", size, inflight, nreq, what)
+		return
+	}
+	lim := w.freshLim
+	if lim.maxSize == 0 {
+		lim = cache2Limits{maxSize: 60 * w.rowB}
+	}
+	w.stepWait(time.Microsecond)
+	w.setLimits(lim, "a new request under")
+	w.stepWait(time.Microsecond)
+	sc := w.steps[0]
+	w.startGet(0, sc, sc.oldBase, 0, 1, 0, false)
+	g := w.gets[len(w.gets)-1]
+	const budget = 40
+	for i := 0; i < budget; i++ {
+		w.stepWait(time.Microsecond)
+		idle, tks := w.idleLoads(), w.pts.Parked()
+		if g.judged && len(idle) == 0 && len(tks) == 0 {
+			break
+		}
+		if len(idle) > 0 {
+			if idle[0].delivered == len(idle[0].ret) {
+				w.command(idle[0], w9CmdReturn)
+			} else {
+				w.command(idle[0], w9CmdRest)
+			}
+		} else if len(tks) > 0 {
+			w.pts.Release(tks[0].ID)
+		}
+	}
+	if !g.judged {
+		ld := w.loads[g.id]
+		st := "its loader was not called"
+		if ld != nil {
+			st = fmt.Sprintf("its load is in state %d (2: inside updateInflightApprox), %d of %d slots delivered", ld.state, ld.delivered, len(ld.ret))
+		}
+		size, inflight, nreq, _ := w.memState()
+		r.Fail("C23", "liveness", "new-request-after-emptying", "the cache was emptied and nothing else is in flight, limits maxSize=%d rows soft=%d rows: Get #%d has not returned after %d scheduler steps in which its load was delivered and completed; %s; cache size %d bytes, in-flight estimate %d bytes in %d requests", lim.maxSize/w.rowB, lim.maxSizeSoft/w.rowB, g.id, budget, st, size, inflight, nreq)
+		return
+	}
+	r.Probe("new_request_after_emptying_returned")
+	w.setLimits(cache2Limits{}, "lifted")
+	for i := 0; i < 20; i++ { // the trim goroutine may stand at one of its hook points
+		w.stepWait(time.Microsecond)
+		tks := w.pts.Parked()
+		if len(tks) == 0 {
+			break
+		}
+		w.pts.Release(tks[0].ID)
+	}
+}
+
 // windDown: lift the limits, stop holding loaders back, let every request return (bounded
 // liveness), then empty and shut the cache down and check the accounting.
 func (w *w9World) windDown(check bool) {
@@ -1309,7 +1467,10 @@ func (w *w9World) windDown(check bool) {
 	for ; steps < budget; steps++ {
 		w.stepWait(time.Microsecond)
 		busy := false
-		if idle := w.idleLoads(); len(idle) > 0 { // one goroutine chain per step, as in the schedule
+		if held := w.heldLoads(); len(held) > 0 {
+			w.report(held[0])
+			busy = true
+		} else if idle := w.idleLoads(); len(idle) > 0 { // one goroutine chain per step, as in the schedule
 			if idle[0].delivered == len(idle[0].ret) {
 				w.command(idle[0], w9CmdReturn)
 			} else {
@@ -1378,6 +1539,9 @@ func (w *w9World) windDown(check bool) {
 		if ok, empty, what := w.accounting(); !ok || !empty {
 			r.Fail("C23", "accounting_after_reset", "final", "final reset() of the idle cache did not bring the accounting to zero: %s", what)
 		}
+	}
+	if check && !r.Failed() && w.holdMode {
+		w.freshGet()
 	}
 	// shutdown
 	down := false
